@@ -94,6 +94,10 @@ def gen_cases(rnd, tier):
             cases.append((("dyn", [], -1), bs))
         if rnd.random() < 0.15:
             cases.append((t, mutate_invalid(bs, rnd)))
+    # the empty item of every scalar class (decoded into a variable that already holds a value: see observe)
+    for kind, code in (("Binary", 0o10), ("Boolean", 0o11), ("String", 0o20), ("JIS8", 0o21), ("U1", 0o51), ("U2", 0o52), ("U4", 0o54), ("U8", 0o50),
+                       ("I1", 0o31), ("I2", 0o32), ("I4", 0o34), ("I8", 0o30), ("F4", 0o44), ("F8", 0o40)):
+        cases.append((("scal", kind, -1), bytes([(code << 2) | 1, 0])))
     # a J item at the top and inside lists (one, two levels down, next to other items) offered to the catch-all types
     j_item = bytes([0x45, 3, 0x61, 0xB1, 0x7E])
     for raw in (j_item, bytes([0x01, 1]) + j_item, bytes([0x01, 2]) + bytes([0xA5, 1, 7]) + j_item, bytes([0x01, 1, 0x01, 2]) + j_item + bytes([0x41, 1, 0x62]), bytes([0x01, 1, 0x45, 0])):
@@ -130,7 +134,7 @@ def observe(t, bs):
         var = valrig.build(t)
         # every second time the receiving variable is not fresh: it holds a value already, which the decoded one replaces entirely
         # (also when the decoded item is empty)
-        if t[0] == "scal" and (len(bs) + sum(bs[:8])) % 2 == 0:
+        if t[0] == "scal" and ((len(bs) + sum(bs[:8])) % 2 == 0 or (len(bs) >= 2 and bs[1] == 0 and len(bs) == 2)):
             try:
                 var.set({"Binary": b"\x07", "Boolean": True, "String": "x", "JIS8": "x"}.get(t[1], 1))
                 out["preloaded"] = True
